@@ -297,9 +297,10 @@ def demoSched (seed : Nat) : PhysPar.Sched Ex Bx Gx Px Ax where
 def doRunPhysPar (s : EngStore) (inst : String) (threads : Nat) : Option (EngStore × String) := do
     let i ← (s.insts.find? (·.1 == inst)).map (·.2)
     let p := desugRepeated i.pd.prog
-    if p.rels.any (·.lat) || p.rules.any (fun r => r.body.any fun | .agg _ => true | _ => false) then some (s, "na")
+    if p.rels.any (·.lat) then some (s, "na")
+    else if !Phys.aggPlanOk stdVars p (Phys.ixSetsOfA stdVars p) then some (s, "na-plan")
     else
-      let ix := Phys.ixSetsOf stdVars p
+      let ix := Phys.ixSetsOfA stdVars p
       let s0 : PhysPar.PCSt := PhysPar.initSt threads p ix fun r => (relSt i.st r).rows
       match PhysPar.run (interp (kindOf i.pd)) stdVars p ix i.pd.order (demoSched threads) threads defaultFuel s0 with
       | .ok (some ps) =>
